@@ -61,8 +61,10 @@ pub fn fuzz_entry(target: &str, data: &[u8]) {
         "c02" => t!("C02", "random", c02::Scenario, c02::fuzz_sanitize, c02::run),
         "c03" => t!("C03", "random", c03::Scenario, c03::fuzz_sanitize, c03::run),
         "c04" => t!("C04", "random", c04::Scenario, c04::fuzz_sanitize, c04::run),
+        "c07" => t!("C07", "prefixes", c07::Scenario, c07::fuzz_sanitize, c07::run),
         "c08" => t!("C08", "random", c08::Scenario, c08::fuzz_sanitize, c08::run),
         "c09" => t!("C09", "routing", c09::Scenario, c09::fuzz_sanitize, c09::run),
+        "c10" => t!("C10", "histories", c10::Scenario, c10::fuzz_sanitize, c10::run),
         "c11" => t!("C11", "outcomes", c11::Scenario, c11::fuzz_sanitize, c11::run),
         "c12" => t!("C12", "pairing", c12::Scenario, c12::fuzz_sanitize, c12::run),
         "c14" => t!("C14", "latency-window", c14::Scenario, c14::fuzz_sanitize, c14::run),
@@ -71,4 +73,4 @@ pub fn fuzz_entry(target: &str, data: &[u8]) {
     }
 }
 
-pub const FUZZ_TARGETS: &[&str] = &["c02", "c03", "c04", "c08", "c09", "c11", "c12", "c14", "c15"];
+pub const FUZZ_TARGETS: &[&str] = &["c02", "c03", "c04", "c07", "c08", "c09", "c10", "c11", "c12", "c14", "c15"];
